@@ -149,8 +149,10 @@ class DispatchNormaliser(ast.NodeTransformer):
 def normalise_dispatch(tree: ast.Module) -> list[str]:
     t = DispatchNormaliser()
     t.visit(tree)
+    p = PullLoopNormaliser()
+    p.visit(tree)
     ast.fix_missing_locations(tree)
-    return t.log
+    return t.log + p.log
 
 
 class Dispatch:
@@ -384,3 +386,66 @@ def literal_dispatches(nodes) -> list[Dispatch]:  # noqa: F811
 def general_dispatches(nodes) -> list[Dispatch]:  # noqa: F811
     nodes = list(nodes)
     return _general_dispatches_core(nodes) + guard_chains(nodes, _general_test)
+
+
+class PullLoopNormaliser(ast.NodeTransformer):
+    """`for T in it: BODY` over a variable bound by `it = iter(..)` /
+    `aiter(..)` is the explicit pull loop
+        while True:
+            try: T = next(it)
+            except StopIteration: break
+            BODY
+    (and the async twin). The rules are written about explicit pulls."""
+
+    def __init__(self):
+        self.log: list[str] = []
+        self.iter_vars: list[set[str]] = []
+
+    def _visit_fn(self, node):
+        bound = set()
+        for n in ast.walk(node):
+            if isinstance(n, (ast.Assign, ast.AnnAssign)) and isinstance(
+                    n.value, ast.Call) and isinstance(n.value.func, ast.Name) \
+                    and n.value.func.id in ("iter", "aiter"):
+                t = n.targets[0] if isinstance(n, ast.Assign) else n.target
+                if isinstance(t, ast.Name):
+                    bound.add(t.id)
+        self.iter_vars.append(bound)
+        self.generic_visit(node)
+        self.iter_vars.pop()
+        return node
+
+    visit_FunctionDef = _visit_fn
+    visit_AsyncFunctionDef = _visit_fn
+
+    def _loop(self, node, is_async: bool):
+        self.generic_visit(node)
+        if not self.iter_vars or node.orelse or not isinstance(
+                node.iter, ast.Name) or node.iter.id not in self.iter_vars[-1] \
+                or not isinstance(node.target, ast.Name):
+            return node
+        call = ast.Call(func=ast.Name(id="anext" if is_async else "next",
+                                      ctx=ast.Load()),
+                        args=[ast.Name(id=node.iter.id, ctx=ast.Load())],
+                        keywords=[])
+        value = ast.Await(value=call) if is_async else call
+        pull = ast.Assign(targets=[ast.Name(id=node.target.id,
+                                            ctx=ast.Store())], value=value)
+        handler = ast.ExceptHandler(
+            type=ast.Name(id="StopAsyncIteration" if is_async else
+                          "StopIteration", ctx=ast.Load()),
+            name=None, body=[ast.Break()])
+        tr = ast.Try(body=[pull], handlers=[handler], orelse=[], finalbody=[])
+        new = ast.While(test=ast.Constant(value=True), body=[tr] + node.body,
+                        orelse=[])
+        for n in ast.walk(new):
+            ast.copy_location(n, node)
+        self.log.append(f"for over iterator `{node.iter.id}` at "
+                        f"L{node.lineno} -> explicit pull loop")
+        return new
+
+    def visit_For(self, node):
+        return self._loop(node, False)
+
+    def visit_AsyncFor(self, node):
+        return self._loop(node, True)
